@@ -244,7 +244,16 @@ func (m *C04) AroundModule(w *chain.World, ctx sdk.Context, module, phase string
 		out := zi(dq, r.denomOut)
 		same := r.recipient == r.sender
 		bad := []string{}
-		if r.kind == "in" {
+		if same && r.denomIn == r.denomOut {
+			// a round-trip route (input and output are the same denom of the same account): only the
+			// net is observable; it must be at least (minimum out - stated in) resp. (stated out - maximum in)
+			net := zi(ds, r.denomIn)
+			floor := r.amountOut.Sub(r.amountIn)
+			if net.LT(floor) {
+				bad = append(bad, fmt.Sprintf("round-trip route: net %s%s is below stated out %s minus stated in %s", net, r.denomIn, r.amountOut, r.amountIn))
+			}
+			m.st.Ev("round_trip_route_judged_on_net")
+		} else if r.kind == "in" {
 			if !in.Neg().Equal(r.amountIn) && !(same && r.denomIn == r.denomOut) {
 				bad = append(bad, fmt.Sprintf("sender debited %s%s, stated input %s", in.Neg(), r.denomIn, r.amountIn))
 			}
